@@ -848,15 +848,12 @@ fn render_ev(m: &mut EM, fmt: &str, how: u8, off: Duration, to: TimeScale) -> Op
         };
         Some(match how {
             0 => format!("{}", Formatter::new(a, fm)),
-            1 => {
-                // with_timezone, or new + set_timezone (the same formatter by another route)
-                if (off.to_parts().1 / 60_000_000_000) % 2 == 0 {
-                    format!("{}", Formatter::with_timezone(a, off, fm))
-                } else {
-                    let mut x = Formatter::new(a, fm);
-                    x.set_timezone(off);
-                    format!("{}", x)
-                }
+            1 => format!("{}", Formatter::with_timezone(a, off, fm)),
+            3 => {
+                // new + set_timezone: the offset is recorded for %z, the epoch shown is not shifted
+                let mut x = Formatter::new(a, fm);
+                x.set_timezone(off);
+                format!("{}", x)
             }
             _ => format!("{}", Formatter::to_time_scale(a, fm, to)),
         })
@@ -869,7 +866,7 @@ fn render_ev(m: &mut EM, fmt: &str, how: u8, off: Duration, to: TimeScale) -> Op
     let shown = if how == 2 { to } else { a.time_scale };
     m.rec.ev(
         "render",
-        format!("\"fmt\":{},\"how\":{},\"off\":{},\"to\":{},\"res\":{}", jstr(fmt), how, jdur(if how == 1 { off } else { Duration::ZERO }), ts_idx(shown), res),
+        format!("\"fmt\":{},\"how\":{},\"off\":{},\"to\":{},\"res\":{}", jstr(fmt), how, jdur(if how == 1 || how == 3 { off } else { Duration::ZERO }), ts_idx(shown), res),
         true,
     );
     out
@@ -965,7 +962,7 @@ pub fn c19(rec: &mut Rec, lm: &Landmarks, rng: &mut Rng, thorough: bool) {
     for (i, f) in formats.iter().enumerate() {
         let ts = SCALES[i % 9];
         m.eload_dur(ts, ns_dur(elapsed_4digit(rng, ts)));
-        let how = (i % 3) as u8;
+        let how = if i % 12 == 7 { 3 } else { (i % 3) as u8 };
         let off = ns_dur((rng.below(2 * 1439 + 1) as i128 - 1439) * 60 * NS_S as i128);
         let to = if ts == TimeScale::ET || ts == TimeScale::TDB { ts } else { EXACT[i % 7] };
         render_ev(&mut m, f, how, off, to);
